@@ -8,9 +8,10 @@ commit: `seq++`, append, acknowledge, wake the reader).  Sender: the *relation* 
 what any packetisation (bufio + base64 encoder + one data stanza per encoder write) must
 satisfy; the harness evaluates it on the packets tapped from the real sender.
 
-The base64 codec is a parameter of the theorems (`Codec`); `std` is the executable instance
-used by the driver (standard alphabet, `=` padding, CR/LF ignored like Go's decoder), whose
-agreement with `encoding/base64` is checked by correspondence, not proved.
+The base64 codec is a parameter of the receiver theorems (`Codec`); `std` is the executable
+instance (standard alphabet, `=` padding, CR/LF ignored like Go's decoder) for which the two
+codec laws are proved (`Lemmas/Ibb.lean`); its agreement with `encoding/base64` on malformed
+input is checked by correspondence.
 -/
 namespace XmppModel.Ibb
 open XmppModel
@@ -90,14 +91,12 @@ def emits (cd : Codec) (written : Bytes) (closed : Bool) (ps : List Packet) : Bo
   | none => false
   | some d => if closed then d == written else d.isPrefixOf written
 
-/-! ### executable standard base64 (driver only) -/
+/-! ### standard base64 (executable; the laws are proved in `Lemmas/Ibb.lean`) -/
 
-def alphabet : List Char :=
-  "ABCDEFGHIJKLMNOPQRSTUVWXYZabcdefghijklmnopqrstuvwxyz0123456789+/".toList
-
-def encChar (n : Nat) : UInt8 := match alphabet[n]? with
-  | some c => c.toNat.toUInt8
-  | none => 61
+/-- the i-th letter of `A–Z a–z 0–9 + /` -/
+def encChar (n : Nat) : UInt8 :=
+  if n < 26 then (65 + n).toUInt8 else if n < 52 then (71 + n).toUInt8
+  else if n < 62 then (n - 4).toUInt8 else if n = 62 then 43 else 47
 
 def decChar (c : UInt8) : Option Nat :=
   let n := c.toNat
@@ -116,18 +115,22 @@ def stdEnc : Bytes → Bytes
     encChar (a.toNat / 4) :: encChar (a.toNat % 4 * 16 + b.toNat / 16) ::
     encChar (b.toNat % 16 * 4 + c.toNat / 64) :: encChar (c.toNat % 64) :: stdEnc rest
 
+/-- groups of four characters; `=` padding only in the last group (trailing bits are not
+checked, like Go's non-strict decoder) -/
 def stdDecGroups : Bytes → Option Bytes
   | [] => some []
-  | [w, x, 61, 61] => do
-    let s0 ← decChar w; let s1 ← decChar x
-    pure [(s0 * 4 + s1 / 16).toUInt8]
-  | [w, x, y, 61] => do
-    let s0 ← decChar w; let s1 ← decChar x; let s2 ← decChar y
-    pure [(s0 * 4 + s1 / 16).toUInt8, (s1 % 16 * 16 + s2 / 4).toUInt8]
-  | w :: x :: y :: z :: rest => do
-    let s0 ← decChar w; let s1 ← decChar x; let s2 ← decChar y; let s3 ← decChar z
-    let r ← stdDecGroups rest
-    pure ((s0 * 4 + s1 / 16).toUInt8 :: (s1 % 16 * 16 + s2 / 4).toUInt8 :: (s2 % 4 * 64 + s3).toUInt8 :: r)
+  | w :: x :: y :: z :: rest =>
+    if rest = [] ∧ z = 61 then
+      if y = 61 then do
+        let s0 ← decChar w; let s1 ← decChar x
+        pure [(s0 * 4 + s1 / 16).toUInt8]
+      else do
+        let s0 ← decChar w; let s1 ← decChar x; let s2 ← decChar y
+        pure [(s0 * 4 + s1 / 16).toUInt8, (s1 % 16 * 16 + s2 / 4).toUInt8]
+    else do
+      let s0 ← decChar w; let s1 ← decChar x; let s2 ← decChar y; let s3 ← decChar z
+      let r ← stdDecGroups rest
+      pure ((s0 * 4 + s1 / 16).toUInt8 :: (s1 % 16 * 16 + s2 / 4).toUInt8 :: (s2 % 4 * 64 + s3).toUInt8 :: r)
   | _ => none
 
 /-- CR and LF are skipped, as by `encoding/base64` -/
